@@ -213,7 +213,8 @@ def m2_remove_committed(S):
         ctx.env = list(E.LOGGING_OFF) + [
             (E.rx(r"TxPool::remove_committed_tx$"), lambda ex, c, a, d, log=log: (log.append(("one", nmv(ex, a[1]), list(ex.pc))), UNIT)[1]),
             (E.rx(r"TxPool::resolve_conflict_header_dep$"), lambda ex, c, a, d, log=log: (log.append(("header_dep", nmv(ex, a[1]), list(ex.pc))), UNIT)[1]),
-            (E.rx(r"LruCache::<.*>::put$"), lambda ex, c, a, d, log=log: (log.append(("cache", nmv(ex, a[1]) + "->" + nmv(ex, a[2]), list(ex.pc))), mk_option(False, None, d))[1]),
+            (E.rx(r"LruCache::<.*>::put$"), lambda ex, c, a, d, log=log: (log.append(("cache", nmv(ex, a[1]) + "->" + nmv(ex, a[2]), list(ex.pc))),
+                                                            mk_option(ex.ctx.bool("was_already_cached_" + re.sub(r"[^A-Za-z0-9]", "_", nmv(ex, a[1]))).t, OpaqueV("older_hash", "Byte32"), d))[1]),
             (E.rx(r"HashSet::<.*>::is_empty$"), lambda ex, c, a, d: empty),
             (E.rx(r"TransactionView::proposal_short_id$"), lambda ex, c, a, d: OpaqueV("id(" + nmv(ex, a[0]) + ")", d)),
             (E.rx(r"TransactionView::hash$"), lambda ex, c, a, d: OpaqueV("hash(" + nmv(ex, a[0]) + ")", d)),
@@ -224,6 +225,9 @@ def m2_remove_committed(S):
         S.prove(ctx, ob, f"{tag}_no_panic", [], T.not_(cond_of(panics(ps))))
         ones = [n for t, n, _ in log if t == "one"]
         S.prove(ctx, ob, f"{tag}_every_attached_transaction_is_processed_in_order", [], bool(_dedupe(ones) == [f"tx{k}" for k in range(ntx)]), extra={"note": str(ones)})
+        # ... on every path (also for a transaction that was seen as committed before: a reorganisation can commit it again)
+        S.prove(ctx, ob, f"{tag}_every_attached_transaction_is_processed_whatever_the_committed_hash_cache_held", [],
+                T.and_(*[T.or_(*[T.and_(*pc) for t, n_, pc in log if t == "one" and n_ == f"tx{k}"]) if any(t == "one" and n_ == f"tx{k}" for t, n_, _ in log) else False for k in range(ntx)]) if ntx else True)
         caches = {n for t, n, _ in log if t == "cache"}
         S.prove(ctx, ob, f"{tag}_committed_hash_cache_maps_each_id_to_its_hash", [], bool(caches == {f"id(tx{k})->hash(tx{k})" for k in range(ntx)}), extra={"note": str(caches)})
         hd = [(n, pc) for t, n, pc in log if t == "header_dep"]
@@ -395,3 +399,91 @@ LEVEL_TEXT = ("Decided on the real MIR: on a tip change the pool adopts the new 
 LEVEL_NOTE = "Partial claim (the reorg-processing step as a sequence of pool-map operations). Container internals, admission of re-added transactions, async service: outside."
 TECHNIQUE = "symbolic execution of rustc MIR (dataflow mode, logged pool-map calls, coroutine body) -> integer-theory SMT (cvc5 + z3)"
 DESIGN_REF = "DESIGN.md section 4 (C12)"
+
+
+def m4_header_dep_conflicts(S):
+    """`PoolMap::resolve_conflict_header_dep(detached)`: with the header-dep index and the detached set as containers with SYMBOLIC hashes (two pooled transactions, one with two
+    header deps, one with one; one or two detached headers): a transaction is removed (with its descendants) iff ANY of its header deps is detached; every removed entry is reported
+    with the reason `InvalidHeader(h)` for a detached header h that is one of that transaction's deps; nothing else is removed"""
+    from mir2smt import symmap as SM
+    from mir2smt.srcinfo import field_index
+    ob = "C12.m4"
+    f = _find(S, lambda x: x.short == "resolve_conflict_header_dep" and "component/pool_map.rs" in x.name and "{closure" not in x.name and len(x.params) == 2, "PoolMap::resolve_conflict_header_dep")
+    PM = field_index("tx-pool/src/component/pool_map.rs", "PoolMap")
+    ED = field_index("tx-pool/src/component/edges.rs", "Edges")
+    deps = {"t0": ["h0", "h1"], "t1": ["h2"]}
+    for ndet in (1, 2):
+        ctx = S.ctx(unwind=12)
+        ctx.uninterpreted_unknown_calls = True
+        ctx.prune_with_solver = True
+        ctx.max_paths = 4000
+        ident = lambda n_: ctx.int("id!" + n_, "u64").t
+        ctx.add_side(T.ne(ident("t0"), ident("t1")))
+        hd = SM.MapV(tuple((ident(t), ctx.ref_to(ListV(tuple(OpaqueV(h, "Byte32") for h in hs), "Vec<Byte32>")), OpaqueV(t, "ProposalShortId")) for t, hs in deps.items()), "HashMap<ProposalShortId, Vec<Byte32>>")
+        edges = AggV(tuple((hd if k == "header_deps" else OpaqueV("edges." + k, "?")) for k, _ in sorted(ED.items(), key=lambda kv: kv[1])), "Edges")
+        pm = ctx.ref_to(AggV(tuple((edges if k == "edges" else OpaqueV("pm." + k, "?")) for k, _ in sorted(PM.items(), key=lambda kv: kv[1])), "PoolMap"))
+        det_names = [f"d{k}" for k in range(ndet)]
+        # the detached set is a set: its elements are different hashes
+        for i_ in range(ndet):
+            for j_ in range(i_):
+                ctx.add_side(T.ne(ident(det_names[i_]), ident(det_names[j_])))
+        detached = ctx.ref_to(SM.MapV(tuple((ident(n_), None, OpaqueV(n_, "Byte32")) for n_ in det_names), "HashSet<Byte32>", True))
+        removed = []
+
+        def remove(ex, c, a, d):
+            t = nmv(ex, a[1])
+            removed.append((t, list(ex.pc)))
+            ex.log.append(("removed", c, [t], list(ex.pc)))
+            return ListV((OpaqueV("entry_" + t, "TxEntry"), OpaqueV("child_of_" + t, "TxEntry")), "Vec<TxEntry>")
+        ctx.env = list(E.LOGGING_OFF) + [
+            (E.rx(r"PoolMap::remove_entry_and_descendants$"), remove),
+            (E.rx(r"<(Byte32|ckb_types::packed::Byte32|ckb_types::packed::ProposalShortId|ProposalShortId) as (Clone|ToOwned)>::(clone|to_owned)$"), lambda ex, c, a, d: deref(ex, a[0])),
+        ] + SM.handlers(r"(ckb_types::packed::)?(ProposalShortId|Byte32)") + SM.EXTRAS + list(E.LIST_ADAPTORS)
+        ps = S.run(ctx, f, [pm, detached])
+        tag = f"{ndet}_detached"
+        S.prove(ctx, ob, f"{tag}_no_panic", [], T.not_(cond_of(panics(ps))))
+        isdet = lambda h: T.or_(*[T.eq(ident(h), ident(d_)) for d_ in det_names])
+        for t, hs in deps.items():
+            when = T.or_(*[T.and_(*pc) for t_, pc in removed if t_ == t]) if any(t_ == t for t_, _ in removed) else False
+            S.prove(ctx, ob, f"{tag}_{t}_is_removed_iff_any_of_its_header_deps_is_detached", [], T.iff(when, T.or_(*[isdet(h) for h in hs])))
+        goals = []
+        for p in returns(ps):
+            v = p.value
+            rem = [e[2][0] for e in p.log if e[0] == "removed"]
+            ok = isinstance(v, ListV) and len(v.items) == 2 * len(rem) and len(set(rem)) == len(rem) and set(rem) <= set(deps)
+            terms = []
+            if ok:
+                for k, t in enumerate(rem):
+                    for j, who in enumerate((f"entry_{t}", f"child_of_{t}")):
+                        item = v.items[2 * k + j]
+                        ent, rej = item.fields
+                        ok = ok and getattr(ent, "name", None) == who
+                        # Reject::Resolve(OutPointError::InvalidHeader(h)): dig out the hash
+                        hname = _leaf_name(rej)
+                        ok = ok and hname is not None
+                        if hname is not None:
+                            terms.append(T.and_(T.or_(*[T.eq(ident(hname), ident(h)) for h in deps[t]]), isdet(hname)) if hname in sum(deps.values(), []) + det_names else False)
+            goals.append(T.implies(p.cond(), T.and_(bool(ok), *terms)))
+        S.prove(ctx, ob, f"{tag}_removed_entries_and_their_descendants_are_reported_with_a_detached_header_of_that_transaction", [], T.and_(*goals) if goals else False)
+        S.witness(ctx, ob, f"{tag}_reach_second_dep_only", [], T.and_(T.not_(isdet("h0")), isdet("h1")))
+
+
+def _leaf_name(v):
+    """the single opaque leaf inside nested enum/newtype wrappers"""
+    seen = []
+
+    def walk(x):
+        if isinstance(x, OpaqueV):
+            seen.append(x.name)
+        elif isinstance(x, EnumV):
+            for _, pl in x.payloads:
+                for y in pl:
+                    walk(y)
+        elif isinstance(x, AggV):
+            for y in x.fields:
+                walk(y)
+    walk(v)
+    return seen[0] if len(seen) == 1 else None
+
+
+OBLIGATIONS = OBLIGATIONS + [m4_header_dep_conflicts]
